@@ -91,13 +91,14 @@ def fingerprintHostname (E : Env) (stripSfx : Bool) (hostname : Str) : Except Er
 `getNormalizedHostname` -/
 def getFingerprintedHostname (E : Env) (hostOf : Str → Option Str) (inferRedirection stripSfx : Bool)
     (url : Str) : Except Err (Option Str) :=
+  let url := lower url
   let u := if inferRedirection then infer url else url
   match hostOf (ensureProtocol (strip (stripControl u)) "http".toList) with
   | none => .ok none
   | some h => if h.isEmpty then .ok none else (fingerprintHostname E stripSfx h).map some
 
 /-- the options `fingerprint_url` passes to `normalize_url` -/
-def fpOpts : Opts := { queryItemFilter := .lang }
+def fpOpts : Opts := { queryItemFilter := .lang, lowercase := true }
 
 /-- the second pass, from the `SplitResult` of `normalize_url` -/
 def fpParts (E : Env) (stripSfx : Bool) (r : Split) : Except Err Split :=
@@ -122,6 +123,8 @@ def fingerprintUrlSplit (E : Env) (stripSfx : Bool) (url : Str) : Except Err Spl
 
 /-- `fingerprint_url(url, strip_suffix, platform_aware)` -/
 def fingerprintUrl (E : Env) (stripSfx : Bool) (url : Str) : Except Err Str :=
-  (fingerprintUrlSplit E stripSfx url).map (fun r => (urlunsplit r).drop 2)
+  (fingerprintUrlSplit E stripSfx url).map (fun r =>
+    let s := urlunsplit r
+    if startsWith s ['/', '/'] then s.drop 2 else s)
 
 end Ural.Fingerprint
